@@ -373,8 +373,12 @@ def judge_pdb_symbol(ctx, name, sgname, rec):
     if not isinstance(sgname, str) or any(ch.isspace() for ch in sgname):
         bad.append("symbol %r contains blanks" % (sgname,))
     else:
-        if sgname.lower() not in (full, stripped):
-            bad.append("symbol %r is neither %r nor %r" % (sgname, full, stripped))
+        # a '1' is a place-holder in a full monoclinic symbol (lattice letter + three axis symbols, two of them '1':
+        # P 1 21 1, C 1 2 1, P 1 21/c 1); it is part of the name in P 1, P -1, P 3 2 1, P 3 1 m, ...
+        placeholders = len(tokens) == 4 and sum(1 for t in tokens[1:] if t == "1") == 2
+        want = stripped if placeholders else full
+        if sgname.lower() != want:
+            bad.append("symbol %r is not %r" % (sgname, want))
         try:
             o = ctx.sgmod.sg(sgname=sgname)
             if o.no != rec["no"]:
